@@ -28,6 +28,8 @@ _orig = {
     "remove": os.remove,
     "rename": os.rename,
     "replace": os.replace,
+    "link": os.link,
+    "symlink": os.symlink,
     "stat": os.stat,
     "lstat": os.lstat,
     "scandir": os.scandir,
@@ -433,6 +435,8 @@ def _install():
     os.truncate = _wrap1("truncate", "truncate_path", True)
     os.rename = _wrap2("rename", "rename")
     os.replace = _wrap2("replace", "rename")
+    os.link = _wrap2("link", "link")
+    os.symlink = _wrap2("symlink", "link")
     os.stat = _wrap1("stat", "stat", False)
     os.lstat = _wrap1("lstat", "stat", False)
     os.access = _wrap1("access", "stat", False)
@@ -446,7 +450,7 @@ def _install():
 def _uninstall():
     builtins.open = _orig["open"]
     io.open = _orig["io_open"]
-    for k in ("mkdir", "rmdir", "unlink", "remove", "rename", "replace",
+    for k in ("link", "symlink", "mkdir", "rmdir", "unlink", "remove", "rename", "replace",
               "stat", "lstat", "scandir", "listdir", "access", "truncate"):
         setattr(os, k, _orig[k])
     time.sleep = _orig["sleep"]
@@ -568,6 +572,11 @@ def apply_op(snap, op, cut=None):
                 for k in [k for k in snap if k.startswith(pref)]:
                     snap[dst + os.sep + k[len(pref):]] = snap.pop(k)
             snap[dst] = val
+    elif kind == "link":
+        # (a second name for the same content; later writes through either
+        # name are not followed - nothing in the library does that)
+        if rel in snap:
+            snap[op["dst"]] = snap[rel]
     else:
         raise ValueError("unknown op %r" % kind)
     return snap
